@@ -60,17 +60,20 @@ structure PL where
   escape : Bool
   quote : Bool
 
+/-- one character of the scanner of `urllib.request.parse_http_list` -/
+def plStep (st : PL) (cur : Char) : PL :=
+  if st.escape then { st with part := st.part ++ [cur], escape := false }
+  else if st.quote then
+    if cur == '\\' then { st with escape := true }
+    else if cur == '"' then { st with part := st.part ++ [cur], quote := false }
+    else { st with part := st.part ++ [cur] }
+  else if cur == ',' then { st with res := st.res ++ [st.part], part := [] }
+  else if cur == '"' then { st with part := st.part ++ [cur], quote := true }
+  else { st with part := st.part ++ [cur] }
+
 /-- `urllib.request.parse_http_list` -/
 def parseHttpList (s : Str) : List Str :=
-  let st := s.foldl (fun (st : PL) cur =>
-    if st.escape then { st with part := st.part ++ [cur], escape := false }
-    else if st.quote then
-      if cur == '\\' then { st with escape := true }
-      else if cur == '"' then { st with part := st.part ++ [cur], quote := false }
-      else { st with part := st.part ++ [cur] }
-    else if cur == ',' then { st with res := st.res ++ [st.part], part := [] }
-    else if cur == '"' then { st with part := st.part ++ [cur], quote := true }
-    else { st with part := st.part ++ [cur] }) ⟨[], [], false, false⟩
+  let st := s.foldl plStep ⟨[], [], false, false⟩
   let res := if st.part.isEmpty then st.res else st.res ++ [st.part]
   res.map strip
 
